@@ -379,6 +379,9 @@ var polyTokA, polyTokExt, polyTokC0, polyTokC1 = func() (string, string, string,
 type alphaItem struct {
 	ev   string
 	args []string
+	// another opening proposal for the round that is open already; the exhaustive exploration does not offer it to the
+	// empty round (there it would only open a different round: a second copy of the whole state space)
+	reopen bool
 }
 
 func user(i int) string { return fmt.Sprintf("user%d", i) }
@@ -396,7 +399,7 @@ func alphabet(n int, full bool) []alphaItem {
 	T := func(k int64) string { return fmt.Sprint(baseT + k) }
 	late := fmt.Sprint(baseT + 8*day)
 	var al []alphaItem
-	add := func(ev string, args ...string) { al = append(al, alphaItem{ev, args}) }
+	add := func(ev string, args ...string) { al = append(al, alphaItem{ev: ev, args: args}) }
 	pids := []int{}
 	for i := -1; i <= n; i++ {
 		pids = append(pids, i)
@@ -447,6 +450,12 @@ func alphabet(n int, full bool) []alphaItem {
 	nilArgs := sigInitArgs(n, 2, T(0))
 	nilArgs[4+3], nilArgs[4+4], nilArgs[4+5] = "NIL", "x", "x"
 	add("event_sig_proposal_init", nilArgs...)
+	// the opening proposal once more, for a round that is open already: the same list stamped after the invitation
+	// deadline, a shorter list
+	al = append(al, alphaItem{ev: "event_sig_proposal_init", args: sigInitArgs(n, 2, late), reopen: true})
+	if n > 2 {
+		al = append(al, alphaItem{ev: "event_sig_proposal_init", args: sigInitArgs(n-1, 2, T(0)), reopen: true})
+	}
 	add("event_dkg_init_process", "default", T(1))
 	add("event_signing_init", "default", T(6))
 	add("event_signing_start", "signStart", hs("A"), "0", T(7), "1", hs("m1"), hs("f"), "x6d", "0", "0")
@@ -515,7 +524,7 @@ func exploreFSM(w *fsmWorld, n, t, maxStates int, bisim bool, st *fsmStats) {
 		panic("init failed")
 	}
 	first, _ := w.keep()
-	queue := []node{{root, -1, nil}, {first, root, &alphaItem{"event_sig_proposal_init", sigInitArgs(n, t, fmt.Sprint(baseT))}}}
+	queue := []node{{root, -1, nil}, {first, root, &alphaItem{ev: "event_sig_proposal_init", args: sigInitArgs(n, t, fmt.Sprint(baseT))}}}
 	seen[rDumpBytes(w.store[root])] = root
 	seen[rDumpBytes(w.store[first])] = first
 	exhaustive := true
@@ -526,6 +535,9 @@ func exploreFSM(w *fsmWorld, n, t, maxStates int, bisim bool, st *fsmStats) {
 		obsByItem := make([]string, len(al))
 		for ai := range al {
 			it := &al[ai]
+			if it.reopen && cur.idx == root {
+				continue
+			}
 			ob, ok := w.do(cur.idx, it.ev, it.args)
 			obsByItem[ai] = ob
 			st.Transitions++
@@ -621,7 +633,7 @@ func randomWalks(w *fsmWorld, rng *rand.Rand, walks, steps int, st *fsmStats) {
 
 // guidedWalks follow the ceremony order with random participants order and random perturbations,
 // so that deep states (signing with several batches) are reached for n up to 7.
-func guidedWalks(w *fsmWorld, rng *rand.Rand, walks int, st *fsmStats) {
+func guidedWalks(w *fsmWorld, rng *rand.Rand, walks int, st *fsmStats, rep *histReporter) {
 	T := func(k int64) string { return fmt.Sprint(baseT + k) }
 	for k := 0; k < walks; k++ {
 		n := 2 + rng.Intn(6)
@@ -630,7 +642,9 @@ func guidedWalks(w *fsmWorld, rng *rand.Rand, walks int, st *fsmStats) {
 		// the same round, never restored: one instance kept in memory for the whole walk (C19: a round restored from its dump
 		// answers every event like the round that was never stopped - whatever the machine objects remember besides the dump)
 		live, _ := sm.Create(fmt.Sprintf("guided-%d", k))
-		step := func(ev string, args ...string) bool {
+		h := &roundHistory{label: fmt.Sprintf("guided walk %d", k)}
+		step := func(ev string, args ...string) (accepted bool) {
+			defer func() { h.note(ev, args, accepted, dumpStateOf(w.store[idx])) }()
 			ob, ok := w.do(idx, ev, args)
 			if live != nil {
 				r, e, p := safeDo(live, ev, buildReq(args))
@@ -718,6 +732,9 @@ func guidedWalks(w *fsmWorld, rng *rand.Rand, walks int, st *fsmStats) {
 				step("event_signing_restart", "default", T(9))
 			}
 		}
+		// the properties read over the whole history of the round
+		rep.checkC05(h)
+		rep.checkC06(h)
 	}
 }
 
@@ -759,7 +776,9 @@ func runFsmDiff(outDir string, seed int64, tier string) {
 		walks, steps, guided = 600, 200, 400
 	}
 	randomWalks(w, rng, walks, steps, st)
-	guidedWalks(w, rng, guided, st)
+	rep := &histReporter{st: st, seen: map[string]int{}}
+	scriptedHistories(w, st, rep)
+	guidedWalks(w, rng, guided, st, rep)
 	w.ops.Flush()
 	w.obs.Flush()
 	fo.Close()
